@@ -340,6 +340,32 @@ def check_at(path, case):
         for k, at in enumerate(top):
             if set(at.bonds) != exp_nb[k] or at.name != exp_atoms[k][0]:
                 raise PropertyViolation("copy-independent", "mutating the copy changed atom %d of the original" % k)
+    # a topology edited through the public API after loading (AtomTop.connect), then copied: the copy equals the edited
+    # object (not the file), and a copy of that copy too
+    if n >= 2:
+        work = lib("load", MoleculeTop, path)
+        nb_now = [set(s_) for s_ in exp_nb]
+        a, b = 0, n - 1
+        lib("connect", work[a].connect, work[b])
+        nb_now[a].add(b)
+        nb_now[b].add(a)
+        if n >= 4:
+            lib("connect", work[1].connect, work[n - 2])
+            nb_now[1].add(n - 2)
+            nb_now[n - 2].add(1)
+        c1 = lib("copy", work.copy)
+        c2 = lib("copy", c1.copy)
+        for nm, obj in (("edited topology", work), ("copy of the edited topology", c1), ("copy of that copy", c2)):
+            for k, at in enumerate(obj):
+                if set(at.bonds) != nb_now[k]:
+                    raise PropertyViolation("copy-equal", "%s: atom %d bonded to %r, expected %r (bonds %d-%d added with connect "
+                                            "after loading)" % (nm, k, sorted(at.bonds), sorted(nb_now[k]), a, b),
+                                            cls="copy-equal:after-connect")
+        if not (c1 == work and c2 == work):
+            raise PropertyViolation("copy-equal", "a copy of a topology edited after loading is not equal to it",
+                                    cls="copy-equal:after-connect")
+        if bool(lib("connectivity", are_connected, c2.atoms)) != indep.connected(n, edges + [(a, b)] + ([(1, n - 2)] if n >= 4 else [])):
+            raise PropertyViolation("connectivity", "are_connected on the copy of an edited topology disagrees with its graph")
     lp = longest_path_lower_bound(n, edges)
     gap = case["numbering"] in ("gaps", "offset")
     nt = (gap and len(case["used_sections"]) >= 2) or lp > 1000
